@@ -550,12 +550,15 @@ def gen_outer(idx, kind):
     if fwd is not None and rng.random() < 0.8:
         attrs_field = rng.choice(["plain", "plain", "count", "fail"])
     body = None
+    def wrap(name, syn_ty):
+        # an entry receiver plain, or inside the two wrappers that implement the entry traits
+        return rng.choice([name, name, "SpannedValue<%s>" % name, "WithOriginal<%s, %s>" % (name, syn_ty)])
     if kind == "FD" and rng.random() < 0.6:
-        v = rng.choice(["()", "syn::Ident"] + fv_names[-3:])
-        f = rng.choice(["()", "syn::Type"] + ff_names[-3:])
+        v = rng.choice(["()", "syn::Ident", "syn::Variant", "Vec<syn::Attribute>"] + [wrap(n, "syn::Variant") for n in fv_names[-3:]])
+        f = rng.choice(["()", "syn::Type", "syn::Visibility", "syn::Field", "Vec<syn::Attribute>"] + [wrap(n, "syn::Field") for n in ff_names[-3:]])
         body = ("data", rng.choice(["ast::Data<%s, %s>" % (v, f)] * 4 + ["kind"]))
     if kind == "FV" and rng.random() < 0.6:
-        f = rng.choice(["()", "syn::Type"] + ff_names[-3:])
+        f = rng.choice(["()", "syn::Type", "syn::Field"] + [wrap(n, "syn::Field") for n in ff_names[-3:]])
         body = ("fields", "ast::Fields<%s>" % f)
     supports = None
     if kind == "FD" and rng.random() < 0.35:
@@ -615,8 +618,13 @@ def emit_outer(r, out):
         ty = MAGIC_TY[(r["kind"], m)]
         if m == "generics" and rng.random() < 0.6:
             ty = rng.choice(["ast::Generics<syn::GenericParam>", "ast::Generics<ast::GenericParam<syn::Ident>>",
-                             "ast::Generics<ast::GenericParam<syn::TypeParam>>"] +
+                             "ast::Generics<ast::GenericParam<syn::TypeParam>>", "ast::Generics<ast::GenericParam<Vec<syn::Attribute>>>"] +
                             ["ast::Generics<ast::GenericParam<%s>>" % n for n in ft_names[-3:]])
+            w = rng.random()
+            if w < 0.2:
+                ty = "darling::Result<%s>" % ty
+            elif w < 0.4:
+                ty = "WithOriginal<%s, syn::Generics>" % ty
         members.append((m, ty, None))
     if r["attrs_field"]:
         if r["attrs_field"] == "plain":
@@ -710,7 +718,7 @@ def main():
     out = ["//! GENERATED by harness/gen/gen_fm.py — the compiled corpus of `FromMeta` receivers.",
            "#![allow(dead_code, unused_imports, non_snake_case, clippy::all)]",
            "use crate::fns;", "use crate::recv::{FieldInfo, OuterEntry, OuterInfo, OuterRun, RecvInfo};", "use darling::ast;",
-           "use darling::{FromAttributes, FromDeriveInput, FromField, FromTypeParam, FromVariant};", "use crate::sx::*;", "use crate::types::{mk, TyEntry};",
+           "use darling::{FromAttributes, FromDeriveInput, FromField, FromTypeParam, FromVariant};", "use darling::util::WithOriginal;", "use crate::sx::*;", "use crate::types::{mk, TyEntry};",
            "use crate::vals::Canon;", "use darling::util::{Flag, Override, SpannedValue};", "use darling::FromMeta;",
            "use std::collections::HashMap;", ""]
     body = []
@@ -738,6 +746,16 @@ def main():
     for r in receivers:
         (info_struct if r["kind"] == "struct" else info_enum)(r, infos)
     counts = gen_outers(body, infos)
+    # fixed receiver for the F16 witness (independent of the random corpus)
+    body += ["#[derive(FromAttributes)]", "#[darling(attributes(a))]", "pub struct FAW {", "    pub f: i64,", "    #[darling(default)]",
+             "    pub g: i64,", "}", "impl Canon for FAW {", "    fn canon(&self) -> Sx {",
+             '        tagged("rec", vec![st("FAW"), list(vec![st("f"), self.f.canon()]), list(vec![st("g"), self.g.canon()])])', "    }", "}"]
+    infos += ["fn info_FAW() -> OuterInfo {", "    OuterInfo {",
+              '        base: RecvInfo { name: "FAW", is_enum: false, allow_unknown: false, has_flatten: false,', "            fields: vec![",
+              '                FieldInfo { name: "f", required: true, multiple: false, valid: &[" = 5", " = 12"], invalid: &[" = true"] },',
+              '                FieldInfo { name: "g", required: false, multiple: false, valid: &[" = 7"], invalid: &[" = true"] },',
+              "            ],", "            flat_items: &[], valid: &[], invalid: &[] },",
+              '        kind: "FA", attr_names: &["a"], from_ident: false,', "    }", "}"]
     out += body
     out.append("")
     out += infos
@@ -764,12 +782,16 @@ def main():
         else:
             out.append("    vec![]")
         out.append("}")
+    out.append("fn vals_FAW(_ident: &str) -> Vec<(String, Sx)> {")
+    out.append("    vec![]")
+    out.append("}")
     out.append("pub fn outer_receivers() -> Vec<OuterEntry> {")
     out.append("    vec![")
     runner = {"FD": "Fdi(crate::recv::run_fdi::<%s>)", "FF": "Ff(crate::recv::run_ff::<%s>)", "FV": "Fv(crate::recv::run_fv::<%s>)",
               "FT": "Ft(crate::recv::run_ft::<%s>)", "FA": "Fa(crate::recv::run_fa::<%s>)"}
     for r in outer:
         out.append("        OuterEntry { info: info_%s, run: OuterRun::%s, vals: vals_%s }," % (r["name"], runner[r["kind"]] % r["name"], r["name"]))
+    out.append("        OuterEntry { info: info_FAW, run: OuterRun::Fa(crate::recv::run_fa::<FAW>), vals: vals_FAW },")
     out.append("    ]")
     out.append("}")
     open(OUT, "w").write("\n".join(out) + "\n")
